@@ -415,7 +415,7 @@ func (g *genCtx) scriptOps() []ScriptOp {
 	used := map[string]bool{}
 	for i := 0; i < n; i++ {
 		var op ScriptOp
-		switch pick(g, fmt.Sprintf("op%d", i), "setWeight", "setWeight", "setStable", "append", "append", "setAnno", "setLabel", "countMatches", "identity") {
+		switch pick(g, fmt.Sprintf("op%d", i), "setWeight", "setWeight", "setStable", "append", "append", "setAnno", "setAnnoOnMatch", "setLabel", "countMatches", "identity") {
 		case "setWeight":
 			op = ScriptOp{Op: "setWeight", Path: pick(g, "op-path", []string{"weight"}, []string{"canary", "weight"}, []string{"cfg", "canary", "weight"})}
 		case "setStable":
@@ -424,6 +424,10 @@ func (g *genCtx) scriptOps() []ScriptOp {
 			op = ScriptOp{Op: "append", Path: pick(g, "op-apath", []string{"backends"}, []string{"routes"}, []string{"cfg", "routes"})}
 		case "setAnno":
 			op = ScriptOp{Op: "setAnno", Key: pick(g, "op-akey", "example.com/canary-weight", "app", "team"), Value: pick(g, "op-aval", "weight", "service")}
+		case "setAnnoOnMatch":
+			// step-dependent: written only by steps that carry matches, so a later weight step's
+			// output omits it (steps must not accumulate)
+			op = ScriptOp{Op: "setAnnoOnMatch", Key: pick(g, "op-mkey", "example.com/canary-by-header", "team")}
 		case "setLabel":
 			op = ScriptOp{Op: "setLabel", Key: pick(g, "op-lkey", "canary", "app", "tier"), Value: pick(g, "op-lval", "weight", "service")}
 		case "countMatches":
@@ -483,6 +487,8 @@ func renderScript(ops []ScriptOp) string {
 				v = "obj.canaryService"
 			}
 			fmt.Fprintf(&b, "if d.%s == nil then d.%s = {} end\nd.%s[%q] = %s\n", f, f, f, op.Key, v)
+		case "setAnnoOnMatch":
+			fmt.Fprintf(&b, "if obj.matches ~= nil and #obj.matches > 0 then\nif d.annotations == nil then d.annotations = {} end\nd.annotations[%q] = tostring(#obj.matches)\nend\n", op.Key)
 		case "identity":
 		}
 		b.WriteString("end\n")
